@@ -11,7 +11,7 @@ use crate::world::World;
 
 pub struct C12;
 
-const WORLD_DIMS: &[&str] = &["rand", "heap_pad", "env_pad", "stack", "malloc_tun", "malloc_mode"];
+const WORLD_DIMS: &[&str] = &["rand", "heap_pad", "env_pad", "stack", "malloc_tun", "malloc_mode", "stdout", "env_kind", "locale"];
 
 impl Property for C12 {
     fn id(&self) -> &'static str {
@@ -24,7 +24,7 @@ impl Property for C12 {
         if tier == "thorough" { 1_000_000 } else { 30_000 }
     }
     fn rule(&self) -> String {
-        "case = (W3 object history: 1-3 final maps of 0..40 keys from an alphabet with non-identifiers, empty string, case variants, non-ASCII, numeric-looking keys; each map built twice along independent PRNG insertion orders and routes: literal with overwritten duplicates, incremental o[k]=v / o.k=v with overwrite and op-assign, spread of a partial object, {defaults.., overrides..} double spread, collected rest of a destructuring, shorthand; half of the maps get a third object differing in exactly one key or value, compared repeatedly in both directions, as fresh temporaries in a loop, and again after being mutated back) x (world: hash keys from the PRNG, heap/env padding, stack limit, malloc tunables); oracle: stdout equals the byte-ordered sorted-map model (print, for, nested print, reads), `==` between the two constructions prints true and `==`/`!=` against the one-difference variant print false/true every time, stderr empty, exit 0; since the model does not depend on the world or the order, equality in every case implies cross-world and cross-order identity; non-trivial = map has >= 2 keys; distinct = distinct (program, world)".to_string()
+        "case = (W3 object history: 1-3 final maps of 0..40 keys from an alphabet with non-identifiers, empty string, case variants, non-ASCII, numeric-looking keys; each map built twice along independent PRNG insertion orders and routes: literal with overwritten duplicates, incremental o[k]=v / o.k=v with overwrite and op-assign, spread of a partial object, {defaults.., overrides..} double spread, collected rest of a destructuring, shorthand; half of the maps get a third object differing in exactly one key or value, compared repeatedly in both directions, as fresh temporaries in a loop, and again after being mutated back) x (world: hash keys from the PRNG, heap/env padding, stack limit, malloc tunables and allocator behaviour, what stdout is connected to (file, pipe, socket, terminal, append-mode file), environment kind, locale); oracle: stdout equals the byte-ordered sorted-map model (print, for, nested print, reads), `==` between the two constructions prints true and `==`/`!=` against the one-difference variant print false/true every time, stderr empty, exit 0; since the model does not depend on the world or the order, equality in every case implies cross-world and cross-order identity; non-trivial = map has >= 2 keys; distinct = distinct (program, world)".to_string()
     }
     fn assumptions(&self) -> Vec<String> {
         vec![
@@ -42,6 +42,10 @@ impl Property for C12 {
         let mut world = World::random(rng, WORLD_DIMS);
         if world.rand == [0; 16] && rng.chance(3, 4) {
             world.rand = rng.bytes16();
+        }
+        // a closed stdout swallows the output the model is compared with
+        if world.stdout == 3 {
+            world.stdout = 5;
         }
         Case { label: p.label, program: p.program, aux: p.aux, world, plan: Plan::new() }
     }
